@@ -75,6 +75,8 @@ pub(super) fn remove_or_compress_too_old_logfiles(
             )
         },
         |cleanup_thread_handle| {
+            #[cfg(flexi_logger_verif)]
+            crate::verif_hooks::sched_point("cleanup_send");
             cleanup_thread_handle
                 .sender
                 .send(MessageToCleanupThread::Act)
@@ -200,6 +202,8 @@ pub(super) fn start_cleanup_thread(
     Ok(CleanupThreadHandle {
         sender,
         join_handle: builder.spawn(move || {
+            #[cfg(flexi_logger_verif)]
+            let _exit = crate::verif_hooks::SchedGuard("cleanup_exit");
             while let Ok(MessageToCleanupThread::Act) = receiver.recv() {
                 remove_or_compress_too_old_logfiles_impl(
                     &cleanup,
@@ -208,6 +212,8 @@ pub(super) fn start_cleanup_thread(
                     writes_direct,
                 )
                 .ok();
+                #[cfg(flexi_logger_verif)]
+                crate::verif_hooks::sched_point("cleanup_done");
             }
         })?,
     })
